@@ -1086,6 +1086,16 @@ def opaque_attr(I, obj, name):
         if name in ('add', 'append', 'extend', 'update', 'remove', 'insert', 'clear', 'discard'):
             return Builtin('havoc.' + name, lambda I_, a, k: None)
         raise Unsupported('read of loop state that the invariant does not describe (%s.%s)' % (obj.payload, name))
+    if obj.tag == 'file':
+        from . import iomodel
+        r1 = iomodel.file_attr(I, obj, name)
+        if r1 is not NOATTR:
+            return r1
+    if obj.tag == 'bytes':
+        from . import iomodel
+        r1 = iomodel.bytes_attr(I, obj, name)
+        if r1 is not NOATTR:
+            return r1
     if obj.tag == 'set':
         if name == 'add':
             def _add(I_, a, k):
